@@ -73,3 +73,17 @@ Proof.
   pose proof (dep_rest_step c n prog d H1 H2 H3 H4 H5 H6 H7) as H. split; [exact (proj1 H) | exact (proj2 (proj2 (proj2 (proj2 H))))].
 Qed.
 Print Assumptions C05_resolver_percall_no_deadlock.
+
+From EL Require Proofs.DepMeasure.
+(* the resolver in front of a block executor makes progress under every schedule: every step of
+   every thread decreases a natural-number measure, except the sleep of the resolver's idle loop
+   while no parked call is ready (and, before shutdown, the outer queue is empty) — the only
+   fruitless poll there is (Proofs/DepMeasure.v) *)
+Theorem C05_resolver_progress_measure :
+  forall c n k0 prog d t d' l,
+    dinner c = IBlock k0 ->
+    wf_prog n prog -> wf_deps c n -> dreach c (dinit n prog) d -> dstep c d t = Some (d', l) ->
+    (t = TR -> DepMeasure.r_polling c d = false) -> (t = TD -> d_polling (xs d) = false) ->
+    DepMeasure.dmu c n d' < DepMeasure.dmu c n d.
+Proof. exact DepMeasure.dstep_decreases. Qed.
+Print Assumptions C05_resolver_progress_measure.
